@@ -32,7 +32,8 @@ RULE = ("seeded random histories (10-40 steps) over an object pool (automata of 
         "intersection/to_cfg over shared State objects, repeated IndexedGrammar.is_empty). Every step is an event; "
         "online: structure signatures of all pool objects before/after each step; offline: every logged answer vs the "
         "answer of a fresh twin rebuilt from provenance. Non-trivial: history with >=6 answered steps of >=3 kinds; "
-        "distinct = (seed, script).")
+        "distinct = (seed, script)."
+        ' Later additions: a feature grammar and an epsilon-chain automaton in the pool, epsilon-edge mutations between queries, runs of repeated contains().')
 ASSUMPTIONS = ["attribute accessors (.states, .productions, .transitions) return live containers by documented design and "
                "are not conversions", "language-valued answers are normalised to bounded word sets (<=3-4 symbols)"]
 TIERS = {
